@@ -16,7 +16,7 @@ RULE = ('(missing) for fixed fully specified systems of rank 1-3 every subset of
         'diameter[t], potential[p], closure[p], omega[p], domain} is left unassigned -- enumerated exhaustively -- and createPRISM() and '
         'solve() must raise ValueError without any potential / closure / omega calculate() having run (instance wrappers count calls). '
         '(history) a Hypothesis RuleBasedStateMachine edits one System (density, diameter, kT, replace potential / closure / omega of a '
-        'pair, replace the domain) and calls createPRISM / solve in between; the model is the spec as edited so far. After every '
+        'pair, replace the domain or edit it in place through its dr / length setters) and calls createPRISM / solve in between; the model is the spec as edited so far. After every '
         'createPRISM the wiring is compared with the oracle built from the model (closure.potential = u_ref/kT, closure.sigma, omega = '
         'rho_site x omega_ref) and cost(x) at a generated smooth x must equal bit for bit the cost(x) of a PRISM built from a fresh '
         'System constructed from the model; solve() results must equal bit for bit those of the fresh System; the System\'s own tables, '
@@ -24,7 +24,8 @@ RULE = ('(missing) for fixed fully specified systems of rank 1-3 every subset of
         'earlier PRISM object must still return the same cost(x). Non-trivial = >= 2 creates separated by an edit and >= 1 edit after a '
         'create; distinct = hash of (system, trace).')
 ASSUMPTIONS = ['"edit potential/closure/omega" = replacing the table entry (what the tutorial sweeps do); attributes of constructed objects are not mutated',
-               '"edit domain" = assigning a new Domain object (setter histories are C07\'s subject)',
+               '"edit domain" = assigning a new Domain object, or assigning dr / length on the System\'s own Domain (dk assignments are left to C07: they do not '
+               'give a bit-identical grid)',
                'two identical computations are bit-identical (asserted), so the fresh-System comparison needs no tolerance']
 EPS = np.finfo(float).eps
 
@@ -194,6 +195,7 @@ def edit_ops():
         'set_closure': {'p': idx, 'desc': clo},
         'set_omega': {'t': idx, 'desc': om},
         'set_domain': {'length': st.sampled_from([256, 300, 512]), 'dr': st.sampled_from([0.125, 0.25, 0.2])},
+        'mutate_domain': {'which': st.sampled_from(['dr', 'length']), 'dr': st.sampled_from([0.125, 0.25, 0.2, 0.1]), 'length': st.sampled_from([256, 300, 512])},
         'create': {'x': specs.array_desc(4, (-2, -0.5))},
         'solve': {},
     }
@@ -333,6 +335,15 @@ class Histories(History):
         elif kind == 'set_domain':
             m['domain'] = {'length': op['length'], 'dr': op['dr']}
             s.domain = P.Domain(length=op['length'], dr=op['dr'])
+        elif kind == 'mutate_domain':
+            # in-place edit of the System's own Domain through its setters (dr and length setters compute dk exactly as the
+            # constructor does, so the result is bit-identical to a freshly constructed Domain)
+            if op['which'] == 'dr':
+                m['domain'] = {'length': m['domain']['length'], 'dr': op['dr']}
+                s.domain.dr = op['dr']
+            else:
+                m['domain'] = {'length': op['length'], 'dr': m['domain']['dr']}
+                s.domain.length = op['length']
         # isolation: every PRISM object created earlier still computes the same thing
         for (pr, x, y) in st_.created:
             y2 = np.array(S.quiet(pr.cost, x.copy()))
@@ -353,8 +364,15 @@ class Histories(History):
             u = np.asarray(clo.potential, dtype=float)
             want = ref['u'][:, i, j]
             judged = ref['u_judged'][:, i, j]
+            from . import c10
+            pname, pp = m['potential'][S.key(i, j)][0], m['potential'][S.key(i, j)][1]
+            psig = S.potential_sigma(m, i, j)
+            q = S.pot_params(pname, pp, psig)
+            q.setdefault('high_value', 1e6)
             with np.errstate(all='ignore'):
-                ok = (np.abs(u - want) <= 4e-12 * (np.abs(want) + 1e-300) + 1e-300) | ~judged | (np.abs(u - want) <= 1e-9 * np.abs(want) * (r < 0.3 * ref['sigma'][i, j]))
+                # rounding is relative to the size of the terms that are added (12-6 forms cancel near r = sigma)
+                mag = c10.magnitude(pname, q, r, psig) / m['kT'] + np.abs(want)
+                ok = (np.abs(u - want) <= 4e-12 * mag + 1e-300) | ~judged | ~np.isfinite(mag)
             if u.shape != want.shape or not np.all(ok):
                 mm = int(np.flatnonzero(~ok)[0]) if u.shape == want.shape else 0
                 out.fail(sig + 'wiring/potential', 'pair (%s,%s): closure.potential(r=%.4g) = %r, model %s/kT gives %r' % (
